@@ -162,6 +162,16 @@ def table_specs(tier):
                             yield (r, c, sep, cap, tattr, rattr, cattr, hdr, a, b, cc)
 
 
+# contents with "!!" outside any call: a separator in header rows, plain text in data rows (tables without header cells only)
+BANG_CONT = ["a!!b", "''a!!b''", "'''x!!y''' z", "<span>''p!!q''</span>", "x"]
+
+
+def check_bang(ctx, exp, conts, sep):
+    cont = lambda i, j: BANG_CONT[conts[i * 2 + j]]  # noqa: E731
+    src = build(2, 2, sep, None, {}, {}, {}, "none", cont)
+    return src, judge_table(ctx, exp, src, 2, 2, None, {}, {}, {}, "none", cont)
+
+
 def check_full_2x2(ctx, exp, conts, sep, hdr):
     cont = lambda i, j: CONT[conts[i * 2 + j]]  # noqa: E731
     src = build(2, 2, sep, None, {}, {}, {}, hdr, cont)
@@ -384,6 +394,14 @@ def work(payload, skip, report):
             for o, ob, ex in res:
                 acc.violation(o, {"first": first, "input": second, "kind": "same_page"}, ob, ex)
         acc.sample({"first": UNFINISHED[0], "input": SECOND_DOCS[0]})
+        for conts, sep in itertools.product(itertools.product(range(len(BANG_CONT)), repeat=4), ("nl", "inline", "inline_tight")):
+            report(i)
+            i += 1
+            src, res = check_bang(ctx, exp, conts, sep)
+            acc.case()
+            acc.distinct("inputs", src)
+            for o, ob, ex in res:
+                acc.violation(o, {"input": src, "kind": "bang", "spec": [list(conts), sep]}, ob, ex)
         for (esc, live, k), order in itertools.product(TWINS, (0, 1, 2)):
             report(i)
             i += 1
@@ -505,6 +523,8 @@ def replay(case):
         if k == "table":
             r, c, sep, cap, tattr, rattr, cattr, hdr, a, b, cc = spec
             _, res = check_table(ctx, exp, (r, c, sep, tuple(cap) if cap else None, tattr, rattr, cattr, hdr, a, b, cc))
+        elif k == "bang":
+            _, res = check_bang(ctx, exp, tuple(spec[0]), spec[1])
         elif k == "full2x2":
             _, res = check_full_2x2(ctx, exp, tuple(spec[0]), spec[1], spec[2])
         elif k == "html":
